@@ -97,6 +97,18 @@ import textwrap
 exec("from typing import Any\nfrom functools import partial\n" + textwrap.dedent(flt_src), ns)
 flt = ns["filter_attribute_access"]
 lua = lupa.LuaRuntime(unpack_returned_tuples=True, register_eval=False, attribute_filter=flt)
+# preferably the runtime that initialize_lua itself builds (it is assigned to ctx.lua before the sandbox
+# libraries, which are absent offline, are loaded): this is the real filter closure, state included
+try:
+    with quiet_stdout():
+        luaexec.initialize_lua(ctx)
+except Exception:
+    pass
+if ctx.lua is not None:
+    lua = ctx.lua
+    real_runtime = True
+else:
+    real_runtime = False
 getter = lua.eval("function(o, n) return o[n] end")
 
 
@@ -122,6 +134,15 @@ if "python" in list(lua.globals().keys()) and lua.eval("python and python.eval")
 
 # what do the values handed to Lua expose through *public* attributes?
 helper = partial(luaexec.get_page_info, ctx)
+# probe the same attribute on a non-partial helper first: the filter's answer must not depend on history
+try:
+    getter(luaexec.fetch_language_name, "args")
+except Exception:
+    pass
+try:
+    getter(Probe(), "args")
+except Exception:
+    pass
 evaluations += 1
 try:
     leaked = getter(helper, "args")
